@@ -1346,3 +1346,20 @@ func (r *Result) noteAcq(f *ssa.Function, c string, st state) {
 	}
 	m[c] = cur
 }
+
+// TryLikeOf: the helper returns a single bool that is true exactly when it comes back
+// holding the lock (a wrapper of TryLock/TryRLock that does not release it again).
+func (r *Result) TryLikeOf(f *ssa.Function) (Lock, bool) {
+	if sm := r.sums[f]; sm != nil && sm.tryLike != nil {
+		return *sm.tryLike, true
+	}
+	return Lock{}, false
+}
+
+// HeldOnReturnOf: the locks the helper holds at every successful return (acquired in it, for its caller).
+func (r *Result) HeldOnReturnOf(f *ssa.Function) []Lock {
+	if sm := r.sums[f]; sm != nil && sm.nOK > 0 {
+		return sm.held
+	}
+	return nil
+}
